@@ -1291,6 +1291,7 @@ static void run(int tier, long idx, vf_result *r)
     memset(&c, 0, sizeof(c));
     c.r = r;
     c.kind = -1;
+    mut_level2 = k->type == CT_DEV2;
     switch (k->type) {
     case CT_SEED:
 	{
